@@ -1,6 +1,6 @@
 """C05 — finite signals end exactly once (DESIGN.md §6 C05)."""
 from vlib.vunit import run_unit, build_search
-from props.C04 import ADAPTORS, common
+from props.C04 import ADAPTORS, common, frame_contracts
 
 LABELS = set(['%s::is_exhausted' % a for a in ADAPTORS] + [
     'FromIterator::next', 'FromIterator::is_exhausted',
@@ -20,6 +20,7 @@ def run(ctx):
                      'lemma_from_iter_deterministic proved by induction over the iterator state machine')
     run_unit(ctx, 'signal', only_labels=LABELS, search_map={'IntoInterleavedSamples::into_iter': ['IntoInterleavedSamples::next_sample'],
                                                           'IntoInterleavedSamplesIterator::next': ['IntoInterleavedSamples::next_sample']})
+    frame_contracts(ctx)
 
 
 def prepare_replay(rec):
